@@ -5,11 +5,11 @@ fn main() {
     let key = ThreadKey::get().unwrap();
     let m = Mutex::new(0);
     let g = m.lock(key);
-    let k = g.thread_key; //~ ERROR E0616
+    let k = g.@{field:MutexGuard~ThreadKey}; //~ ERROR E0616
     //~ TWIN: let k = Mutex::unlock(g);
     let c = LockCollection::new((Mutex::new(1), Mutex::new(2)));
     let g2 = c.lock(k);
-    let k2 = g2.key; //~ ERROR E0616
+    let k2 = g2.@{field:LockGuard~ThreadKey}; //~ ERROR E0616
     //~ TWIN: let k2 = LockCollection::<(Mutex<i32>, Mutex<i32>)>::unlock(g2);
     drop(k2);
 }
